@@ -86,7 +86,7 @@ def _cli_step(arg: dict) -> dict:
             "probes": probes}
 
 
-def run_cli_step(arg: dict, wall=120) -> dict:
+def run_cli_step(arg: dict, wall=400) -> dict:
     try:
         st, val = core.run_forked(_cli_step, arg, wall_limit=wall)
     except core.ChildTimeout:
